@@ -18,7 +18,17 @@ import hugr.model as model
 from hugr._serialization.ops import OpType as SerialOp
 from hugr._serialization.serial_hugr import SerialHugr
 from hugr.exceptions import ParentBeforeChild
-from hugr.ops import Call, Const, Custom, DataflowOp, Module, Op
+from hugr.ops import (
+    Call,
+    Const,
+    Custom,
+    DataflowOp,
+    IncompleteOp,
+    LoadConst,
+    LoadFunc,
+    Module,
+    Op,
+)
 from hugr.tys import Kind, Type, ValueKind
 from hugr.utils import BiMap
 from hugr.val import Value
@@ -667,10 +677,35 @@ class Hugr(Mapping[Node, NodeData], Generic[OpVarCov]):
         if p.offset < 0:
             assert p.offset == -1, "Only order edges are allowed with offset < 0"
             offset = self.num_ports(p.node, p.direction)
+            # The order port comes after all the value (and static) ports of
+            # the operation, whether or not they are connected.
+            order_offset = self._order_port_offset(p.node, p.direction)
+            if order_offset is not None:
+                offset = max(offset, order_offset)
         else:
             offset = p.offset
 
         return offset
+
+    def _order_port_offset(self, node: Node, direction: Direction) -> PortOffset | None:
+        """Offset of the state order port of a dataflow node: the first port
+        after the value ports and the static input port of its operation.
+        None if the operation has no order port or is incomplete.
+        """
+        op = self[node].op
+        try:
+            if isinstance(op, Call):
+                sig = op.instantiation
+            elif isinstance(op, DataflowOp):
+                sig = op.outer_signature()
+            else:
+                return None
+        except IncompleteOp:
+            return None
+        if direction == Direction.INCOMING:
+            static_input = isinstance(op, Call | LoadConst | LoadFunc)
+            return len(sig.input) + int(static_input)
+        return len(sig.output)
 
     def resolve_extensions(self, registry: ext.ExtensionRegistry) -> Hugr:
         """Resolve extension types and operations in the HUGR by matching them to
